@@ -3,7 +3,7 @@
   match_compile.rs, match_anchor.rs, binding_analysis.rs `extract_output_var_kinds`, ast_walk.rs
   `extract_predicates`, projection_compile.rs `compile_projection_aggregation`, return_with.rs.
   Quirks are kept (anonymous-id allocation order, WHERE equalities pushed down as extra filters + IndexSeek,
-  property maps of ANONYMOUS relationships dropped … whatever the source does).  `BTreeMap`s are key-sorted association lists.
+  … whatever the source does).  `BTreeMap`s are key-sorted association lists.
 -/
 import Nervus.Model.QPlan
 namespace Nervus.Cy.Compile
@@ -213,14 +213,18 @@ def compileChain (input : Option Plan) (p : PathPat) (preds : Preds) (known : Ki
     | [] => (plan, s)
     | (rp, np) :: rest =>
       let (dst, s) := match np.var with | some v => (v, s) | none => genName s
+      -- an anonymous relationship that carries a property map gets a generated alias (fix 0a34a68), so that
+      -- the map becomes a filter like for a named one
+      let (edge, s) : Option String × St := match rp.var with
+        | some v => (some v, s)
+        | none => if rp.props.isEmpty then (none, s) else let (n, s) := genName s; (some n, s)
       let pre := localBound.contains cur || boundAsNode known cur
-      let plan := mkHop rp.dir plan cur rp.types rp.var dst np.labels pre (some path)
+      let plan := mkHop rp.dir plan cur rp.types edge dst np.labels pre (some path)
       let lp := extendPreds lp dst np.props
-      -- properties of an anonymous relationship are not turned into predicates (`if let Some(ea) = &edge_alias`)
-      let lp := match rp.var with | some ea => extendPreds lp ea rp.props | none => lp
+      let lp := match edge with | some ea => extendPreds lp ea rp.props | none => lp
       let plan := applyFilters plan dst lp
-      let plan := match rp.var with | some ea => applyFilters plan ea lp | none => plan
-      hops plan dst lp (localBound ++ [dst] ++ rp.var.toList) s rest
+      let plan := match edge with | some ea => applyFilters plan ea lp | none => plan
+      hops plan dst lp (localBound ++ [dst] ++ edge.toList) s rest
   hops plan0 src lp [] s p.steps
 
 /-- match_compile.rs `compile_match_plan` -/
